@@ -688,6 +688,43 @@ func closeStalledWrite(tr string) (bool, bool, string) {
 	}
 }
 
+// failedListen: a Listen that fails for a network reason (an address of this form that cannot be bound here) leaves the
+// listener usable: Address, GetOption, SetOption, a second Listen and Close all return (no panic, no hang).
+func failedListen(tr string) (ok bool, note string) {
+	s := wire.New("pair")
+	defer s.Close()
+	ad := map[string]string{"tcp": "tcp://192.0.2.1:0", "tls+tcp": "tls+tcp://192.0.2.1:0", "ws": "ws://192.0.2.1:0/x", "wss": "wss://192.0.2.1:0/x",
+		"ipc": "ipc:///nonexistent-dir-mv/sock"}[tr]
+	l, err := s.NewListener(ad, wire.Opts(tr, true))
+	if err != nil {
+		return false, "NewListener: " + err.Error()
+	}
+	if err := l.Listen(); err == nil {
+		return true, "not exercised: Listen on " + ad + " succeeded"
+	}
+	done := make(chan string, 1)
+	go func() {
+		defer func() {
+			if r := recover(); r != nil {
+				done <- fmt.Sprintf("panic after the failed Listen: %v", r)
+			}
+		}()
+		_ = l.Address()
+		_, _ = l.GetOption(mangos.OptionMaxRecvSize)
+		_ = l.SetOption(mangos.OptionMaxRecvSize, 1000)
+		_ = l.Listen()
+		_ = l.Address()
+		_ = l.Close()
+		done <- ""
+	}()
+	select {
+	case r := <-done:
+		return r == "", r
+	case <-time.After(3 * time.Second):
+		return false, "a call on the listener did not return within 3 s after the failed Listen"
+	}
+}
+
 // send side: what Send writes for a header and a body
 func runSend(r *rand.Rand) string {
 	ipc := r.Intn(2) == 0
@@ -839,6 +876,18 @@ func main() {
 			fmt.Fprintln(os.Stderr, "stream: silent peers", tr, note)
 		}
 		late = append(late, fmt.Sprintf("(%q, %s, true)%s", "connections that stay silent before their handshake do not delay the next peer ("+tr+")", coqgen.Bool(ok), n))
+	}
+	for _, tr := range wire.Transports {
+		if tr == "inproc" {
+			continue
+		}
+		ok, note := failedListen(tr)
+		n := ""
+		if note != "" {
+			n = " (* " + strings.ReplaceAll(note, "*)", "") + " *)"
+			fmt.Fprintln(os.Stderr, "stream: failed listen", tr, note)
+		}
+		late = append(late, fmt.Sprintf("(%q, %s, true)%s", "a Listen that failed to bind leaves the listener usable: Address, GetOption, SetOption, Listen, Close ("+tr+")", coqgen.Bool(ok), n))
 	}
 	for _, tr := range wire.Transports {
 		if tr == "inproc" {
